@@ -1,0 +1,13 @@
+//go:build verif
+
+// Contracts for the deductive verifier in /verif (comment-only; compiled only with -tags verif).
+
+package tls
+
+//@ func SignatureAlgorithmFromPubKey
+//@ props C01 C05
+//@ pure
+//@ ensures [ecdsa] typeof(k) == *ecdsa.PublicKey ==> result == ECDSA
+//@ ensures [rsa] typeof(k) == *rsa.PublicKey ==> result == RSA
+//@ ensures [dsa] typeof(k) == *dsa.PublicKey ==> result == DSA
+//@ ensures [anything-else-anonymous] typeof(k) != *ecdsa.PublicKey && typeof(k) != *rsa.PublicKey && typeof(k) != *dsa.PublicKey ==> result == Anonymous
